@@ -64,8 +64,9 @@ static THREADLOCAL rdsparser_t *cur_handle = NULL;
 /* `ri m`: what every callback does from INSIDE the callback (C15 "inside or outside callbacks"):
  * bit 0: register/unregister another callback; bit 1: change the user-data pointer */
 static THREADLOCAL int reent = 0;
+static THREADLOCAL int show_order = 0;   /* `qo 1`: print the order in which the callbacks of a call ran (a `Q` line) */
 static THREADLOCAL unsigned long reent_count = 0;
-static THREADLOCAL char xmsg[160];
+static THREADLOCAL char xmsg[240];
 static void do_register(rdsparser_t *r, int k, int on);
 static void do_set_ud(rdsparser_t *r, unsigned long u);
 
@@ -120,6 +121,50 @@ static int af_listed(const rdsparser_t *r, long khz)
     return (b[code / 8] & (0x80 >> (code % 8))) ? 1 : 0;
 }
 
+
+/* C18 / C15: the look-up functions are pure functions of their arguments — also when they are called from inside a callback while
+ * rdsparser_parse is still running. Baseline: every answer as given before the first API call of this process. */
+static char lk_base[5][256][2][48];
+static int lk_null[5][256][2];
+static int lk_ready = 0;
+static const char *lk_call(int f, int a, int rbds)
+{
+    switch (f) {
+    case 0: return rdsparser_pty_lookup_name((rdsparser_pty_t)a, rbds);
+    case 1: return rdsparser_pty_lookup_short((rdsparser_pty_t)a, rbds);
+    case 2: return rdsparser_pty_lookup_long((rdsparser_pty_t)a, rbds);
+    case 3: return rdsparser_country_lookup_name((rdsparser_country_t)a);
+    default: return rdsparser_country_lookup_iso((rdsparser_country_t)a);
+    }
+}
+static void lk_init(void)
+{
+    for (int f = 0; f < 5; f++)
+        for (int a = 0; a < 256; a++)
+            for (int rb = 0; rb < (f < 3 ? 2 : 1); rb++) {
+                const char *p = lk_call(f, a, rb);
+                lk_null[f][a][rb] = p == NULL;
+                if (p) { strncpy(lk_base[f][a][rb], p, 47); lk_base[f][a][rb][47] = 0; }
+            }
+    lk_ready = 1;
+}
+static THREADLOCAL unsigned long lk_rot = 0;
+static void lk_check_inside(int kind)
+{
+    static const char *names[5] = { "rdsparser_pty_lookup_name", "rdsparser_pty_lookup_short", "rdsparser_pty_lookup_long", "rdsparser_country_lookup_name", "rdsparser_country_lookup_iso" };
+    if (!lk_ready || xmsg[0]) return;
+    for (int n = 0; n < 48; n++) {
+        unsigned long x = lk_rot++;
+        int f = (int)(x % 5), a = (int)((x / 5) % 64), rb = f < 3 ? (int)((x / 320) % 2) : 0;
+        if (f >= 3) a = (int)((x / 5) % 256);
+        const char *p = lk_call(f, a, rb);
+        if ((p == NULL) != lk_null[f][a][rb] || (p && strncmp(p, lk_base[f][a][rb], 47) != 0)) {
+            snprintf(xmsg, sizeof xmsg, "X callback %d: %s(%d,%d) called inside the callback returned \"%.30s\", outside callbacks \"%.30s\"", kind, names[f], a, rb, p ? p : "(null)", lk_null[f][a][rb] ? "(null)" : lk_base[f][a][rb]);
+            return;
+        }
+    }
+}
+
 static event_t *new_event(rdsparser_t *r, int kind, long arg, void *ud)
 {
     if (nev >= MAXEV) { ev_overflow++; return NULL; }
@@ -129,6 +174,7 @@ static event_t *new_event(rdsparser_t *r, int kind, long arg, void *ud)
     /* exercise every getter inside the callback (C15: getters are pure observers) */
     snap_t tmp; snap_all(r, &tmp);
     (void)rdsparser_get_rt(r, 7);
+    lk_check_inside(kind);
     /* C15: a removed callback is skipped and every invoked callback gets the user data most recently set — also when the
      * removal / the change was made a moment ago from inside another callback of the same parse call */
     for (int i = 0; i < NINST; i++)
@@ -140,6 +186,10 @@ static event_t *new_event(rdsparser_t *r, int kind, long arg, void *ud)
         /* `ri 5000+j`: callback j resets the parser from inside the call (rdsparser_clear is an ordinary API call; nothing in
          * the API forbids making it from a callback) */
         if (kind == reent - 5000) { reent_count++; rdsparser_clear(r); }
+    } else if (reent >= 3000) {
+        /* `ri 3000+100*j+4*k`: callback j REGISTERS callback k from inside the call */
+        int j = (reent - 3000) / 100, k = ((reent - 3000) % 100) / 4;
+        if (kind == j) { reent_count++; do_register(r, k % 12, 1); }
     } else if (reent >= 1000) {
         /* targeted form `ri 1000+100*j+4*k+bits`: only callback j acts — bit 0: it unregisters callback k, bit 1: it changes the user data */
         int j = (reent - 1000) / 100, k = ((reent - 1000) % 100) / 4, bits = reent & 3;
@@ -260,6 +310,11 @@ static void emit_state(inst_t *in, long k, int ret)
     fprintf(OUT, "O %ld %d %d\n", k, cur, ret);
     if (ev_overflow) { fprintf(OUT, "X event overflow %ld\n", ev_overflow); ev_overflow = 0; }
     if (xmsg[0]) { fprintf(OUT, "%s\n", xmsg); xmsg[0] = 0; }
+    if (show_order && nev) {
+        fprintf(OUT, "Q");
+        for (int i = 0; i < nev; i++) fprintf(OUT, " %d", evs[i].kind);
+        fprintf(OUT, "\n");
+    }
     qsort(evs, nev, sizeof evs[0], ev_cmp);
     for (int i = 0; i < nev; i++) {
         event_t *e = &evs[i];
@@ -396,6 +451,8 @@ int run_ops_file(const char *path, FILE *out)
             do_set_ud(in->rds, u);
         } else if (line[0] == 'r' && line[1] == 'i' && line[2] == ' ') {
             reent = atoi(line + 3);
+        } else if (line[0] == 'q' && line[1] == 'o' && line[2] == ' ') {
+            show_order = atoi(line + 3);
         } else if (!strcmp(line, "q")) {
             snap_t tmp; snap_all(in->rds, &tmp); snap_all(in->rds, &tmp);
             /* the stateless lookup functions belong to the API too (C19: no hidden mutable state behind them) */
@@ -434,6 +491,7 @@ int main(int argc, char **argv)
 #ifdef SEGCHECK
     seg_snapshot();
 #endif
+    lk_init();
     int rc = run_ops_file(argv[1], stdout);
 #ifdef SEGCHECK
     seg_compare(stdout);
